@@ -30,6 +30,7 @@ OpAddCb == /\ Idle
 OpCms == /\ Idle
          /\ \E s \in {"P", "Q"} : W' = CmsAdd(W, s) /\ Rec([op |-> "cms", s |-> s])
          /\ UNCHANGED <<mode, runEnd, nextFin>>
+OpMSense == /\ Idle /\ W.started /\ W' = ManualSense(W) /\ Rec([op |-> "msense"]) /\ UNCHANGED <<mode, runEnd, nextFin>>
 OpRun == /\ Idle
          /\ \E d \in RunDurs : runEnd' = W.now + d /\ Rec([op |-> "run", d |-> d])
          /\ mode' = IF W.started THEN "running" ELSE "starting"
@@ -46,14 +47,16 @@ SenseStep == /\ mode = "running" /\ W.P.next <= runEnd /\ W.P.next < nextFin
 RunEnd == /\ mode = "running" /\ nextFin > runEnd /\ W.P.next > runEnd
           /\ W' = [W EXCEPT !.now = runEnd] /\ mode' = "idle"
           /\ UNCHANGED <<runEnd, nops, nextFin, hist>>
-Next == OpBump \/ OpAddCb \/ OpCms \/ OpRun \/ RunStart \/ FinStep \/ SenseStep \/ RunEnd
+Next == OpBump \/ OpAddCb \/ OpCms \/ OpMSense \/ OpRun \/ RunStart \/ FinStep \/ SenseStep \/ RunEnd
 Spec == Init /\ [][Next]_vars
 Bound == W.now <= MaxNow
 
 ----------------------------------------------------------------------------
 InvBounded == Bounded(W.P.z, TRUE) /\ Bounded(W.Q.z, FALSE)
 (* the k-th periodic measurement is taken exactly k intervals after the start *)
-PeriodicTimes == [][W'.P.z.count > W.P.z.count => W'.now = W'.P.z.count * W.P.iv]_vars
+PeriodicTimes == [][W'.P.z.tcount > W.P.z.tcount => W'.now = W'.P.z.tcount * W.P.iv]_vars
+(* the time series holds the most recent periodic measurement times *)
+TimeSeriesRecent == \A i \in DOMAIN W.P.z.tser : W.P.z.tser[i] = (W.P.z.tcount - Len(W.P.z.tser) + i) * W.P.iv
 (* first finished part, then every (n+1)-th *)
 PartPattern == [][W'.Q.nfin > W.Q.nfin => ((W'.Q.z.count > W.Q.z.count) <=> (W.Q.nfin % (W.Q.n + 1) = 0))]_vars
 (* stored values never change afterwards: each series only grows at its end and loses at its front *)
